@@ -216,6 +216,8 @@ func runC05(e *core.Env) {
 			e.Probe("destination-with-mirror")
 		}
 		g.K.PartialEvery = []int{0, 0, 1, 2, 3}[e.Choose("gen", 5, "partial")]
+		// a destination that takes only a few bytes of every chunk: each request advances the upload, dozens in a row
+		g.K.PartialMaxBytes = []int{0, 0, 0, 0, 3, 7}[e.Choose("gen", 6, "partialmax")]
 		// a registry may insist on its minimum (not together with partial acceptance, where it is the registry
 		// itself that makes chunks short)
 		minEnforce := e.Choose("gen", 2, "minenforce") == 1
@@ -239,7 +241,7 @@ func runC05(e *core.Env) {
 		}
 		// (also not when the registry side left the session at an odd offset, or with faults: the client then
 		// legitimately sends the rest of a chunk it had already cut)
-		g.K.ChunkMinEnforce = minEnforce && g.K.ChunkMin > 0 && g.K.PartialEvery == 0 && g.K.PutKeepsThenFails == 0 && !faulty
+		g.K.ChunkMinEnforce = minEnforce && g.K.ChunkMin > 0 && g.K.PartialEvery == 0 && g.K.PartialMaxBytes == 0 && g.K.PutKeepsThenFails == 0 && !faulty
 		sample["server"] = fmt.Sprintf("%+v", g.K)
 		// a stream that cannot be rewound cannot be sent twice by any client: when the single
 		// request is refused (which the spec does not allow a registry to do) the documented
@@ -288,6 +290,9 @@ func runC05(e *core.Env) {
 		}
 		if g.K.PartialEvery > 0 && patches > 1 {
 			e.Probe("partial-chunk-accepted")
+		}
+		if g.K.PartialMaxBytes > 0 && patches > 12 {
+			e.Probe("long-run-of-partial-acceptance")
 		}
 		if puts > 1 {
 			e.Probe("fallback-monolithic-to-chunked")
